@@ -20,8 +20,8 @@ RULE = ("case = (sync|async|async with suspending function) x limit x catching (
         "CancelledError/BaseException) x delay (None/int/float/bool/function a*attempt+b*exc_index+c) x sequence of outcome kinds "
         "{ok, caught, subclass of caught, uncaught, CancelledError, other BaseException (+ CancelledError subclass, external "
         "cancellation)}; later calls succeed. quick: ~3000 sampled (limits 1-4, length <= limit+2). thorough: every sequence "
-        "of length <= limit+2 over the six kinds for limits 1-4; crossed with all 6x5x2 configurations for limits 1-2, with a "
-        "rotating 8 (limit 3) / 2 (limit 4) of the 60 configurations per sequence, + 120000 random. "
+        "of length <= limit+2 over the six kinds for limits 1-4; crossed with all 6x5x2 configurations for limits 1-3, with a "
+        "rotating 4 of the 60 configurations per sequence for limit 4, + 120000 random. "
         "non-trivial = at least one retry was made (>= 2 invocations); distinct = by case text")
 TRUSTED = ["harness/comp_retry.py run_real + monitor (virtual clock, exception identity by `is`)",
            "Python `match` class patterns / isinstance as mirrored by Haiway/Model/Retry.lean"]
@@ -62,6 +62,12 @@ CATCH_RND = CATCH_EX + ["c:Ex", "c:E1s", "t:E2", "s:E1,E2,BE", "t:E1s,Cs", "c:Cn
 DELAY_RND = DELAY_EX + ["i0", "i1", "i7", "f0", "f1", "f5", "b0", "fn:0,0,4", "fn:1,0,0", "fn:0,3,1", "fn:3,2,1"]
 
 _quiet = False
+
+
+def setup():
+    from harness.helpers_mpclock import use_real_clock_in_multiprocessing
+
+    use_real_clock_in_multiprocessing()
 
 
 def _silence():
@@ -128,6 +134,7 @@ def run_real(case: str) -> str:
     fnlog: list[str] = []
     st = {"hung": False}
     clock = vloop.CLOCK
+    clock.now = 1000.0  # integer-valued start (see comp_throttle.run_real)
 
     def idx_of(exc) -> int | None:
         for i, e in raised.items():
@@ -282,6 +289,9 @@ def monitor(case: str, out: str) -> list[str]:
     if final.startswith("foreign:"):
         if delay[0] == "bool":
             return []  # a bool delay is outside the property's configurations (None / int / float / function)
+        last = kind_at(calls - 1) if calls >= 1 else "ok"
+        if last != "ok" and final == f"foreign:{KIND_CLS[last].__name__}":
+            return ["retry.result.different-exception-object"]  # right class, but not the object the call raised
         return ["retry.result.foreign-exception"]
     fails: list[str] = []
     if calls != n + 1:
@@ -437,7 +447,7 @@ def generate(rng, tier):
     cfgs = _configs()
     k = rng.randrange(len(cfgs))
     for limit in (1, 2, 3, 4):
-        per_seq = {1: len(cfgs), 2: len(cfgs), 3: 8, 4: 2}[limit]
+        per_seq = {1: len(cfgs), 2: len(cfgs), 3: len(cfgs), 4: 4}[limit]
         for L in range(0, limit + 3):
             for seq in itertools.product(SIX, repeat=L):
                 for j in range(per_seq):
